@@ -117,7 +117,51 @@ def crop_scenarios(ctx, rule='CROP/scenarios'):
                  b, l, r, got[0], '' if got[1] == 'end' else got[1], lo, hi, ' (a length of 0 is an empty window, not "no length")' if l == 0 else ''), construct=cons, definite=True)
 
 
+def block_count_covers_the_length(ctx, rule='BLOCKS/count-covers-the-length'):
+  """Location-independent (expected count on today's tree: 0; the kept patch C20_t is the positive example in the thorough tier): a
+  conversion done block by block touches `count * size` samples.  With `count = len(y) // size` (or `max(1, len(y) // size)`) the last,
+  partial block is never visited: a signal longer than one block whose length is not a multiple of the block size keeps its tail at the
+  value the result was allocated with.  Only the plain floor forms are located; any other count built on `//` is "cannot classify"."""
+  mi = ctx.P.module('audio_io')
+  n = 0
+  def is_len(e):
+    return (isinstance(e, ast.Call) and dotted(e.func) == 'len' and len(e.args) == 1) or (isinstance(e, ast.Attribute) and e.attr == 'size') or \
+        (isinstance(e, ast.Subscript) and isinstance(e.value, ast.Attribute) and e.value.attr == 'shape')
+  for q, fi in sorted(mi.functions.items()):
+    fn = fi.node
+    for lp in ast.walk(fn):
+      if not (isinstance(lp, ast.For) and isinstance(lp.target, ast.Name) and isinstance(lp.iter, ast.Call) and dotted(lp.iter.func) == 'range' and len(lp.iter.args) == 1):
+        continue
+      cnt = U.expand_locals(fn, lp.iter.args[0], at=lp)
+      fds = [x for x in ast.walk(cnt) if isinstance(x, ast.BinOp) and isinstance(x.op, ast.FloorDiv)]
+      if not fds:
+        continue
+      # the loop variable must select a slice (directly or through locals assigned in the body)
+      v = lp.target.id
+      dep = {v}
+      for st in lp.body:
+        if isinstance(st, ast.Assign) and len(st.targets) == 1 and isinstance(st.targets[0], ast.Name) and any(isinstance(x, ast.Name) and x.id in dep for x in ast.walk(st.value)):
+          dep.add(st.targets[0].id)
+      if not any(isinstance(x, ast.Slice) and any(isinstance(y, ast.Name) and y.id in dep for y in ast.walk(x)) for st in lp.body for x in ast.walk(st)):
+        continue
+      n += 1
+      core = cnt
+      if isinstance(core, ast.Call) and dotted(core.func) == 'max' and len(core.args) == 2:
+        core = next((a for a in core.args if U.const_value(a) is None), core)
+      plain = isinstance(core, ast.BinOp) and isinstance(core.op, ast.FloorDiv) and is_len(core.left)
+      cons = '%s: the blocks visited cover the whole signal' % q
+      if plain:
+        ctx.ob(rule, fi, lp, False, 'the loop visits `%s` blocks - the floor of length / block size: when the length is not a multiple of the block size the last, partial block is never converted '
+               'and the tail of the result keeps the value it was allocated with' % norm_text(cnt)[:60], construct=cons, definite=True)
+      else:
+        why = 'cannot classify: whether the block count %s covers a partial last block' % norm_text(cnt)[:60]
+        ctx.ob(rule, fi, lp, False, why, construct=cons, unknown=why)
+  if n == 0:
+    ctx.ob(rule, mi, mi.tree, True, 'no block-wise loop in audio_io', construct='block-wise conversions cover the whole signal')
+
+
 def run(ctx):
+  block_count_covers_the_length(ctx)
   from sa import pitfalls
   crop_scenarios(ctx)
   pitfalls.apply(ctx, 'PITFALL', [fi_ for q_, fi_ in sorted(ctx.P.module('audio_io').functions.items())], ['neg-zero-slice'], {
@@ -392,3 +436,4 @@ EXPLANATION += (' Location-independent additions: WAV/mono-untouched (channels f
 EXPLANATION += (' Round 7: ' + 'STEREO/zero-padding (no cyclic fill with np.resize / np.tile).')
 EXPLANATION += (' Rounds 9-10: ' + 'PITFALL/neg-zero-slice over audio_io, with a witness search over small parameter values (pitfalls.zero_witness).')
 EXPLANATION += (' Round 11: ' + 'CROP/scenarios; SCALE/operand-is-input looks at every return.')
+EXPLANATION += (' Round 14: ' + 'BLOCKS/count-covers-the-length.')
